@@ -301,15 +301,37 @@ def _try(lit):
     return {"failing": False, "input": src}
 
 
+# multi-quoted strings: (PRQL literal as written, the string it denotes); runs of the delimiter's quote character shorter than the delimiter are content
+MULTI = [('"""name = "" or x"""', 'name = "" or x'), ("'''''it''s '''so''' '''''", "it''s '''so''' "), ('"""say "hi" now"""', 'say "hi" now'),
+         ('"""a""b"c"""', 'a""b"c')]
+
+
+def _try_multi(written, denotes):
+    import replaylib
+    src = "from t | select {x = %s}" % written
+    ok, out = replaylib.compile_prql(src, target="sql.sqlite")
+    if not ok:
+        return {"failing": out.startswith("PANIC"), "input": src, "expected": repr(denotes), "observed": out[:300], "replay_kind": "multi"}
+    ok2, rows = replaylib.sqlite_rows("create table t(a integer); insert into t values (1);", out)
+    got = rows[0][0] if ok2 and rows else None
+    return {"failing": got != denotes, "input": src, "expected": repr(denotes), "observed": repr(got) if ok2 else str(rows)[:200], "replay_kind": "multi", "written": written, "denotes": denotes}
+
+
 def replay(failure):
     for lit in CANDIDATES:
         r = _try(lit)
+        if r["failing"]:
+            return r
+    for w, d in MULTI:
+        r = _try_multi(w, d)
         if r["failing"]:
             return r
     return {"failing": False}
 
 
 def rerun(doc):
+    if doc.get("replay_kind") == "multi":
+        return _try_multi(doc["written"], doc["denotes"])
     m = re.match(r"from t \| select \{x = '(.*)'\}$", doc["input"], re.S)
     return _try(m.group(1)) if m else {"failing": False}
 
@@ -322,5 +344,9 @@ def sweep():
     for lit in CANDIDATES:
         r = _try(lit)
         r["obligation"] = "lex_strings.parse_escape_sequence.decreases" if "terminates" in str(r.get("expected")) else "lex_strings.ES2a"
+        out.append(r)
+    for w, d in MULTI:
+        r = _try_multi(w, d)
+        r["obligation"] = "lex_strings.MQV"
         out.append(r)
     return out
